@@ -334,6 +334,9 @@ func judge(c *vk.Ctx, o *outcome, p1, p2 []rig.GStack) {
 		c.Violate("C13/goroutine-leak/"+ce.key()+"/"+strings.Join(fl, "+"), fmt.Sprintf("%s: library goroutines still present %.1f s and %.1f s after the termination:\n  %s", desc, settle.Seconds(), settle.Seconds()+1, strings.Join(leaks, "\n  ")), replay)
 	}
 	c.Count("goroutine_profiles_inspected", 2)
+	if c.WantSample() {
+		c.Sample(map[string]interface{}{"cell": desc, "inbound_handoffs_pending_at_fault": o.pendingAtFault, "senders_in_flight_at_fault": o.blockedSenders, "socket_closed": closed, "serve_returned": f.Served(), "on_disconnect": atomic.LoadInt64(&l.Disconnected) != 0, "on_stopped": atomic.LoadInt64(&l.Stopped) != 0})
+	}
 }
 
 func main() {
